@@ -336,6 +336,22 @@ func Discharge(results []*FnResult, opts DischargeOpts) (stats map[string]int, s
 			if r.Status != "sat" && r.Status != "unsat" {
 				r = Race(path, full, solvers)
 			}
+			if j.o.MustBeSat && r.Status != "sat" && r.Status != "unsat" && j.c.sizeHints+j.c.nilHints != "" {
+				// a cover under quantified invariants: look for a small witness instead (a model of the
+				// strengthened query is a model of the cover)
+				hpath := strings.TrimSuffix(path, ".smt2") + "__small.smt2"
+				os.WriteFile(hpath, []byte(j.c.Script(j.inst, true, j.c.sizeHints+j.c.nilHints)), 0o644)
+				if rh := Race(hpath, full, solvers); rh.Status == "sat" {
+					r = rh
+					path = hpath
+				} else {
+					os.WriteFile(hpath, []byte(j.c.Script(j.inst, true, j.c.sizeHints)), 0o644)
+					if rh := Race(hpath, full, solvers); rh.Status == "sat" {
+						r = rh
+						path = hpath
+					}
+				}
+			}
 			if r.Status == "unsat" && opts.Cross {
 				// second opinion from a different solver
 				var others []SolverSpec
@@ -374,6 +390,43 @@ func Discharge(results []*FnResult, opts DischargeOpts) (stats map[string]int, s
 		}(ji)
 	}
 	wg.Wait()
+	// rescue pass: instances that timed out while the machine was busy (other checks running beside
+	// this one) get one more attempt, few at a time, with three times the timeout. A load-dependent
+	// "undecided" would otherwise be reported as an alarm on code where the property holds.
+	var late []int
+	for ji := range jobs {
+		if s := resCh[ji].Status; s != "sat" && s != "unsat" && !strings.HasPrefix(resCh[ji].Output, "solvers disagree") {
+			late = append(late, ji)
+		}
+	}
+	if n := len(late); n > 0 && n <= 24 && os.Getenv("GOVC_NORESCUE") == "" {
+		rsem := make(chan struct{}, 3)
+		for _, ji := range late {
+			wg.Add(1)
+			rsem <- struct{}{}
+			go func(ji int) {
+				defer wg.Done()
+				defer func() { <-rsem }()
+				j := jobs[ji]
+				solvers := solverPortfolio()
+				if j.c.usesLambda {
+					solvers = append(append([]SolverSpec{}, solvers[:2]...), solvers[3:]...)
+				}
+				full := opts.Timeout
+				if j.c.timeoutFactor > 1 {
+					full = time.Duration(float64(full) * j.c.timeoutFactor)
+				}
+				r := Race(resCh[ji].Path, 3*full, solvers)
+				mu.Lock()
+				solverTime += r.Seconds
+				mu.Unlock()
+				if r.Status == "sat" || r.Status == "unsat" {
+					resCh[ji] = InstResult{Status: r.Status, Solver: r.Solver + " (rescue pass)", Sec: resCh[ji].Sec + r.Seconds, Output: r.Output, Path: resCh[ji].Path}
+				}
+			}(ji)
+		}
+		wg.Wait()
+	}
 	// aggregate per obligation
 	perObl := map[*Obligation][]InstResult{}
 	for ji, j := range jobs {
